@@ -123,7 +123,7 @@ Qed.
 (* group_functions: under the hypotheses on the three value tests *)
 Definition fn_guard : Prop :=
   vinv Rl Rg (fun v => text_eqb (upper v) s_CREATE) /\ vinv Rl Rg (fun v => text_eqb (upper v) s_TABLE) /\
-  vinv Rl Rg (fun v => text_eqb v s_AS).
+  vinv Rl Rg (fun v => text_eqb (upper v) s_AS).
 
 Lemma prel_functions : fn_guard -> PREL (recurse_pass [CFunction] f_functions).
 Proof.
@@ -330,11 +330,19 @@ Qed.
 
 Lemma fn_guard_as : fn_guard RlA RgA.
 Proof.
-  split; [|split].
-  - intros n n' H. cbv beta. rewrite (nvalue_upper_as n n' H). reflexivity.
-  - intros n n' H. cbv beta. rewrite (nvalue_upper_as n n' H). reflexivity.
-  - intros n n' [ty v v' Hv | c v v' k k' [_ Hv] Hk]; cbn [nvalue]; [|exact Hv].
-    destruct (tin ty T_Keyword); [apply Rl_as_test, Hv | rewrite Hv; reflexivity].
+  split; [|split]; intros n n' H; cbv beta; rewrite (nvalue_upper_as n n' H); reflexivity.
+Qed.
+
+(* ... and so do nodes related by crel alone: the third test reads value.upper() since the fix of C11-as-case *)
+Lemma nvalue_upper n n' : crel n n' -> upper (nvalue n) = upper (nvalue n').
+Proof.
+  intros [ty v v' Hv | c v v' k k' Hv Hk]; cbn [nvalue]; [|apply CR_upper, Hv].
+  destruct (tin ty T_Keyword); [apply CR_upper, Hv | rewrite Hv; reflexivity].
+Qed.
+
+Lemma fn_guard_crel : fn_guard CR CR.
+Proof.
+  split; [|split]; intros n n' H; cbv beta; rewrite (nvalue_upper n n' H); reflexivity.
 Qed.
 
 (* ---- crel_as = crel + as_guard -------------------------------------------------------------------- *)
@@ -400,6 +408,13 @@ Proof. exact (group_prel RlA RgA RlA_upper Hmk_as fn_guard_as). Qed.
 
 Theorem group_upto_case_rel k : forall n n', crel_as n n' -> rres crel_as (group_upto k n) (group_upto k n').
 Proof. exact (group_upto_prel RlA RgA RlA_upper Hmk_as k fn_guard_as). Qed.
+
+(* WITHOUT ANY GUARD (since the fix of C11-as-case in /repo): all 25 passes *)
+Theorem group_rel : forall n n', crel n n' -> rres crel (group n) (group n').
+Proof. exact (group_prel CR CR CR_upper Hmk_crel fn_guard_crel). Qed.
+
+Theorem group_upto_rel k : forall n n', crel n n' -> rres crel (group_upto k n) (group_upto k n').
+Proof. exact (group_upto_prel CR CR CR_upper Hmk_crel k fn_guard_crel). Qed.
 
 (* without the guard: up to (not including) group_functions, and from the pass after it on *)
 Theorem group_upto8_case_rel k : k <= 8 ->
@@ -602,6 +617,80 @@ Proof.
   exists ss'. auto.
 Qed.
 
+(* ---- no guard at all (since the fixes of C11-as-case and C11-go-case in /repo) ------------------------ *)
+Lemma tok_crel_go_guard a b : tok_crel a b -> go_guard a b.
+Proof.
+  intros [Hty Hv] K. unfold tok_crel, tok_relG in *.
+  assert (Kw : tin (fst a) T_Keyword = true) by (apply ttype_eqb_eq in K; rewrite K; reflexivity).
+  rewrite Kw in Hv. pose proof (CR_upper _ _ Hv) as Hu.
+  apply (guard_free a b Hty). rewrite Hu. reflexivity.
+Qed.
+
+Lemma tok_crel_skel_full a b : tok_crel a b -> tok_skel a b.
+Proof. intros H. apply tok_crel_skel; [exact H | apply tok_crel_go_guard, H]. Qed.
+
+Theorem C11_case_split_pointwise_full : forall l l',
+  Forall2 tok_crel l l' -> Forall2 (Forall2 tok_crel) (cur_process l) (cur_process l').
+Proof. apply process_rel. exact tok_crel_skel_full. Qed.
+
+Lemma statement_of_crel s s' : Forall2 tok_crel s s' -> crel (statement_of s) (statement_of s').
+Proof. intros H. apply (statement_of_rel CR CR Hmk_crel). exact H. Qed.
+
+Theorem parse_rel k : forall t t' l l',
+  cur_lex t = Ok l -> cur_lex t' = Ok l' -> Forall2 tok_crel l l' ->
+  rres (Forall2 crel) (cur_parse_upto k t) (cur_parse_upto k t').
+Proof.
+  intros t t' l l' E E' H. unfold cur_parse_upto, cur_split_stream. rewrite E, E'. cbn [bind].
+  apply (mapM_rel2 (Forall2 tok_crel) crel).
+  - intros s s' Hs. apply group_upto_rel, statement_of_crel, Hs.
+  - apply process_rel; [exact tok_crel_skel_full | exact H].
+Qed.
+
+Theorem C11_parse_case_full : forall t t' l l',
+  cur_lex t = Ok l -> cur_lex t' = Ok l' -> Forall2 tok_crel l l' ->
+  forall ss, cur_parse t = Ok ss ->
+  exists ss', cur_parse t' = Ok ss' /\ Forall2 crel ss ss' /\
+              Forall2 (fun s s' => get_type s = get_type s') ss ss'.
+Proof.
+  intros t t' l l' E E' H ss Ep. change (cur_parse t) with (cur_parse_upto 25 t) in Ep.
+  destruct (rres_ok_l _ _ _ _ (parse_rel 25 t t' l l' E E' H) Ep) as (ss' & Ep' & Hs).
+  exists ss'. change (cur_parse t') with (cur_parse_upto 25 t'). split; [exact Ep'|].
+  split; [exact Hs|]. eapply Forall2_mono; [|exact Hs]. intros s s' Hss. apply C11_get_type_case, Hss.
+Qed.
+
+Theorem C11_parse_case_err_full : forall t t' l l',
+  cur_lex t = Ok l -> cur_lex t' = Ok l' -> Forall2 tok_crel l l' ->
+  forall e, cur_parse t = Err e -> cur_parse t' = Err e.
+Proof.
+  intros t t' l l' E E' H e Ep. change (cur_parse t) with (cur_parse_upto 25 t) in Ep.
+  change (cur_parse t') with (cur_parse_upto 25 t').
+  exact (rres_err_l _ _ _ _ (parse_rel 25 t t' l l' E E' H) Ep).
+Qed.
+
+(* from the TEXT: ANY ASCII re-casing that changes keyword tokens only *)
+Definition kw_only (a b : tok) : Prop := tin (fst a) T_Keyword = false -> snd a = snd b.
+
+Lemma lex_case_crel t t' l l' :
+  Forall2 Rcase t t' -> cur_lex t = Ok l -> cur_lex t' = Ok l' -> Forall2 kw_only l l' ->
+  Forall2 tok_crel l l'.
+Proof.
+  intros Ht E E' Hg. pose proof (C_lex_case t t' Ht) as H. rewrite E, E' in H.
+  clear E E'. revert Hg. induction H as [|a b l0 l0' [Hty Hv] _ IH]; intros Hg; [constructor|].
+  inversion Hg as [|a0 b0 l1 l1' G1 Hg']; subst. constructor; [|apply IH, Hg'].
+  split; [exact Hty|].
+  destruct (tin (fst a) T_Keyword) eqn:K; [exact Hv | apply G1; exact K].
+Qed.
+
+Theorem C11_parse_case_text_full : forall t t' l l',
+  Forall2 Rcase t t' -> cur_lex t = Ok l -> cur_lex t' = Ok l' -> Forall2 kw_only l l' ->
+  forall ss, cur_parse t = Ok ss ->
+  exists ss', cur_parse t' = Ok ss' /\ Forall2 crel ss ss' /\
+              Forall2 (fun s s' => get_type s = get_type s') ss ss'.
+Proof.
+  intros t t' l l' Ht E E' Hg ss Ep.
+  exact (C11_parse_case_full t t' l l' E E' (lex_case_crel t t' l l' Ht E E' Hg) ss Ep).
+Qed.
+
 (* ================================================================================================ *)
 (* 7. the hypotheses are satisfiable; the guard is necessary                                         *)
 Lemma crelGb_complete (rl rg : text -> text -> bool) (Rl Rg : text -> text -> Prop) :
@@ -680,55 +769,8 @@ Example ex_g_types :
   map get_type (parsed ex_g_a) = map get_type (parsed ex_g_b) /\ length (parsed ex_g_a) = 2.
 Proof. split; vm_compute; reflexivity. Qed.
 
-(* -- the guard is necessary: 'create table foo AS select f(x)' / '... as ...' (C11Wit) ---------------- *)
-(* generic soundness of the executable checks (so that only closed boolean goals are evaluated) *)
-Definition group_differb (n n' : node) : bool :=
-  crelb n n' && negb (as_guardb n n') &&
-  match group n, group n' with
-  | Ok m, Ok m' => negb (cskel_eqb (cskel_of m) (cskel_of m'))
-  | _, _ => false
-  end.
-
-Lemma group_differb_sound n n' : group_differb n n' = true ->
-  crel n n' /\ ~ as_guard n n' /\
-  match group n, group n' with
-  | Ok m, Ok m' => ~ crel m m'
-  | _, _ => False
-  end.
-Proof.
-  unfold group_differb. intros H. apply andb_true_iff in H. destruct H as [H H3].
-  apply andb_true_iff in H. destruct H as [H1 H2].
-  split; [apply crelb_sound, H1|]. split.
-  - intros G. apply as_guardb_complete in G. rewrite G in H2. discriminate.
-  - destruct (group n) as [m|e]; [|discriminate]. destruct (group n') as [m'|e']; [|discriminate].
-    apply cskel_neq. apply negb_true_iff, H3.
-Qed.
-
-Theorem C11_group_as_case_refuted :
-  exists n n', crel n n' /\ ~ as_guard n n' /\
-    match group n, group n' with
-    | Ok m, Ok m' => ~ crel m m'
-    | _, _ => False
-    end.
-Proof.
-  exists (statement_of (lexed C11Wit.w_as_case_a)), (statement_of (lexed C11Wit.w_as_case_b)).
-  apply group_differb_sound. vm_compute. reflexivity.
-Qed.
-
-(* the same through parse(): the two texts differ in the case of one keyword, their token streams are
-   related token by token (tok_crel, GO guard), yet the trees have different shapes; only the AS guard
-   fails *)
-Definition parse_differb (t t' : text) : bool :=
-  text_Rcase_b t t' &&
-  match cur_lex t, cur_lex t' with
-  | Ok l, Ok l' => forall2b (fun a b => tok_crelb a b && go_guardb a b) l l'
-  | _, _ => false
-  end &&
-  match cur_parse t, cur_parse t' with
-  | Ok ss, Ok ss' => negb (forall2b (fun m m' => cskel_eqb (cskel_of m) (cskel_of m')) ss ss')
-  | _, _ => false
-  end.
-
+(* -- the former witnesses of the AS guard ('create table foo AS select f(x)' / '... as ...', C11Wit): since
+      group_functions reads value.upper() the two texts parse to related trees, with the Function node -- *)
 Lemma tok_crelb_sound a b : tok_crelb a b = true -> tok_crel a b.
 Proof.
   unfold tok_crelb. intros H1. apply andb_true_iff in H1. destruct H1 as [Hty Hv].
@@ -736,42 +778,23 @@ Proof.
   destruct (tin (fst a) T_Keyword); [apply text_Rcase_b_sound, Hv | apply text_eqb_eq, Hv].
 Qed.
 
-Lemma parse_differb_sound t t' : parse_differb t t' = true ->
-  Forall2 Rcase t t' /\
-  (exists l l', cur_lex t = Ok l /\ cur_lex t' = Ok l' /\
-                Forall2 (fun a b => tok_crel a b /\ go_guard a b) l l') /\
-  match cur_parse t, cur_parse t' with
-  | Ok ss, Ok ss' => ~ Forall2 crel ss ss'
-  | _, _ => False
-  end.
-Proof.
-  unfold parse_differb. intros H. apply andb_true_iff in H. destruct H as [H H3].
-  apply andb_true_iff in H. destruct H as [H1 H2].
-  split; [apply text_Rcase_b_sound, H1|]. split.
-  - destruct (cur_lex t) as [l|e]; [|discriminate]. destruct (cur_lex t') as [l'|e']; [|discriminate].
-    exists l, l'. split; [reflexivity|]. split; [reflexivity|].
-    revert H2. apply forall2b_Forall2. intros a b H. apply andb_true_iff in H. destruct H as [Ha Hb].
-    split; [apply tok_crelb_sound, Ha | apply go_guardb_sound, Hb].
-  - destruct (cur_parse t) as [ss|e]; [|discriminate]. destruct (cur_parse t') as [ss'|e']; [|discriminate].
-    apply negb_true_iff in H3. intros C.
-    assert (E : forall2b (fun m m' => cskel_eqb (cskel_of m) (cskel_of m')) ss ss' = true).
-    { clear H3. induction C as [|x y r r' Hxy _ IH]; cbn [forall2b]; [reflexivity|].
-      rewrite (crel_cskel CR CR x y Hxy), cskel_eqb_refl, IH. reflexivity. }
-    congruence.
-Qed.
+Example C11_as_case_witness_fixed :
+  text_Rcase_b C11Wit.w_as_case_a C11Wit.w_as_case_b = true /\
+  match cur_parse C11Wit.w_as_case_a, cur_parse C11Wit.w_as_case_b with
+  | Ok ss, Ok ss' => crelGb_list text_Rcase_b text_Rcase_b ss ss' &&
+                     existsb (cls_eqb CFunction) (flat_map classes_of ss)
+  | _, _ => false
+  end = true.
+Proof. split; vm_compute; reflexivity. Qed.
 
-Theorem C11_parse_as_case_refuted :
-  exists t t',
-    Forall2 Rcase t t' /\
-    (exists l l', cur_lex t = Ok l /\ cur_lex t' = Ok l' /\
-                  Forall2 (fun a b => tok_crel a b /\ go_guard a b) l l') /\
-    match cur_parse t, cur_parse t' with
-    | Ok ss, Ok ss' => ~ Forall2 crel ss ss'
-    | _, _ => False
-    end.
-Proof.
-  exists C11Wit.w_as_case_a, C11Wit.w_as_case_b. apply parse_differb_sound. vm_compute. reflexivity.
-Qed.
+(* ... and of the GO guard ('select 1 GO select 2' / '... go ...'): two statements each *)
+Example C11_go_case_witness_fixed :
+  text_Rcase_b C11Wit.w_go_case_a C11Wit.w_go_case_b = true /\
+  match cur_parse C11Wit.w_go_case_a, cur_parse C11Wit.w_go_case_b with
+  | Ok ss, Ok ss' => Nat.eqb (length ss) 2 && crelGb_list text_Rcase_b text_Rcase_b ss ss'
+  | _, _ => false
+  end = true.
+Proof. split; vm_compute; reflexivity. Qed.
 
 Print Assumptions callbacks_case_safe.
 Print Assumptions group_case_rel.
@@ -784,5 +807,7 @@ Print Assumptions C11_case_split_pointwise.
 Print Assumptions parse_case_rel.
 Print Assumptions C11_parse_case.
 Print Assumptions C11_parse_case_text.
-Print Assumptions C11_group_as_case_refuted.
-Print Assumptions C11_parse_as_case_refuted.
+Print Assumptions group_rel.
+Print Assumptions parse_rel.
+Print Assumptions C11_parse_case_full.
+Print Assumptions C11_parse_case_text_full.
